@@ -1,10 +1,17 @@
 module verifharness
 
-go 1.19
+go 1.22.0
+
+toolchain go1.23.5
 
 require (
 	github.com/aml-org/amf-custom-validator v0.0.0
 	github.com/open-policy-agent/opa v0.47.0
+)
+
+require (
+	golang.org/x/mod v0.22.0 // indirect
+	golang.org/x/sync v0.10.0 // indirect
 )
 
 require (
@@ -20,6 +27,7 @@ require (
 	github.com/xeipuuv/gojsonpointer v0.0.0-20190905194746-02993c407bfb // indirect
 	github.com/xeipuuv/gojsonreference v0.0.0-20180127040603-bd5ef7bd5415 // indirect
 	github.com/yashtewari/glob-intersection v0.1.0 // indirect
+	golang.org/x/tools v0.29.0
 	gopkg.in/yaml.v2 v2.4.0 // indirect
 	gopkg.in/yaml.v3 v3.0.1 // indirect
 )
